@@ -695,10 +695,14 @@ class Dataset(AbstractDataset, dict, OpMixin, GetSetDelAttrMixin):
         if any_nan:
             # Make sure the axis values match the requested new axis
             dataset.axes[axis][mask] = values[mask]
+            name = newax.name
 
             for k in dataset.keys():
+                # variables without that dimension are left unchanged
+                if name not in dataset[k].dims:
+                    continue
                 if method is None:
-                    dataset[k].put(mask, fill_value, axis=axis, inplace=True, indexing="position", cast=True)
+                    dataset[k].put(mask, fill_value, axis=name, inplace=True, indexing="position", cast=True)
 
         return dataset
 
